@@ -428,3 +428,168 @@ impl Property for C05 {
         ]
     }
 }
+
+// --------------------------------------------------------------------------------------------
+pub struct C11;
+
+impl Property for C11 {
+    fn id(&self) -> &'static str {
+        "C11"
+    }
+    fn rule(&self) -> String {
+        "C01/C03/C04/C05 shapes whose embedded expressions are logging leaves t(k) (a global tracer that appends to a per-evaluation trace and returns a per-k value of random kind), 2-10 per case, in attribute values, spread arguments, children, spread children, directive values/arguments, on/nativeOn objects, v-html/v-text values; element and component hosts; all option combinations; slots invoked twice by the canoniser. Oracle: the reference program evaluates its entries left to right by construction; creation trace and per-export / per-slot-invocation traces of the output must equal the reference's (each leaf exactly once per evaluation, attributes and spreads in source order and before children, children in source order, component children only inside - and on every - slot invocation). Directive value/argument leaves are compared as a multiset per trace segment (the statement does not order them). A mergeable name repeats only while no other leaf intervenes, so 'position of first occurrence' and 'source order' coincide. non-trivial = >=2 ordered leaves or a component with >=1 child leaf; distinct by hash(source, options, env)".into()
+    }
+    fn assumptions(&self) -> Vec<String> {
+        vec![
+            "v-model targets and computed v-model arguments are bare identifiers here (the statement exempts them)".into(),
+            "bare identifiers and literals are not observable (statement: 'anything but a bare identifier or literal')".into(),
+        ]
+    }
+    fn max_bytes(&self) -> usize {
+        400
+    }
+    fn cases(&self, tier: Tier) -> u32 {
+        match tier {
+            Tier::Quick => 10_000,
+            Tier::Thorough => 250_000,
+        }
+    }
+    fn uses_node(&self) -> bool {
+        true
+    }
+    fn generate(&self, c: &mut Choices) -> Case {
+        let cfg = SemCfg {
+            logging: true,
+            directives: true,
+            html_text: true,
+            vmodel: true,
+            vslots: true,
+            max_attrs: 5,
+            max_children: 3,
+            max_depth: 2,
+            component_weight: 5,
+            ..SemCfg::default()
+        };
+        let sc = sem_case(c, cfg, false, 2, json!({"trace": true, "slotCalls": 2}));
+        let mut case = sc.case;
+        case.extra["compare_traces"] = json!(true);
+        case.extra["unordered_leaves"] = json!(sc.unordered_leaves);
+        case.extra["traces_only"] = json!(true);
+        let ordered = sc.n_exprs.saturating_sub(sc.unordered_leaves.len());
+        case.nontrivial = ordered >= 2;
+        case.label(format!("leaves={}", sc.n_exprs.min(8)));
+        env_key(&mut case);
+        case
+    }
+    fn check(&self, case: &Case, ctx: &mut Ctx) -> Verdict {
+        judge_semantic_for(case, ctx, "C11")
+    }
+    fn required_labels(&self) -> Vec<&'static str> {
+        vec![
+            "spread",
+            "on-object",
+            "spread-child",
+            "host=bound-component",
+            "host=html",
+            "repeated-class",
+            "repeated-listener",
+            "directive-kebab",
+        ]
+    }
+}
+
+// --------------------------------------------------------------------------------------------
+pub struct C12;
+
+impl Property for C12 {
+    fn id(&self) -> &'static str {
+        "C12"
+    }
+    fn rule(&self) -> String {
+        "every shape the C01-C05 generators produce (attributes, spreads, repeated names, on objects, directives, v-html/v-text, v-model(s), v-slots, nested component trees, all hosts) under every setting of the other options; each module is transformed twice, optimize=true and optimize=false, both outputs are evaluated in node against the same env (slots invoked, v-model listeners fired) and their canonical export values compared with patchFlag / dynamicProps / `_` erased. non-trivial = the two printed outputs differ (the flag did something); distinct by hash(source, options, env)".into()
+    }
+    fn assumptions(&self) -> Vec<String> {
+        vec!["hints = arguments 4-5 of vnode calls and the `_` key of slot objects (erased by the canoniser)".into()]
+    }
+    fn max_bytes(&self) -> usize {
+        500
+    }
+    fn cases(&self, tier: Tier) -> u32 {
+        match tier {
+            Tier::Quick => 10_000,
+            Tier::Thorough => 300_000,
+        }
+    }
+    fn uses_node(&self) -> bool {
+        true
+    }
+    fn generate(&self, c: &mut Choices) -> Case {
+        let cfg = SemCfg {
+            directives: true,
+            html_text: true,
+            vmodel: true,
+            vmodels: true,
+            vslots: true,
+            max_attrs: 5,
+            max_children: 3,
+            max_depth: 3,
+            component_weight: 5,
+            ..SemCfg::default()
+        };
+        let sc = sem_case(c, cfg, true, 3, json!({"fireListeners": true}));
+        let mut case = sc.case;
+        let mut on = sc.opts.clone();
+        on.optimize = true;
+        let mut off = sc.opts.clone();
+        off.optimize = false;
+        case.options = Some(on.json());
+        case.extra["options_off"] = json!(off.json());
+        case.extra["refs"] = json!([]);
+        case.nontrivial = true; // refined by the judge (outputs differ)
+        env_key(&mut case);
+        case
+    }
+    fn check(&self, case: &Case, _ctx: &mut Ctx) -> Verdict {
+        let ctx = _ctx;
+        let mut off_case = case.clone();
+        off_case.options = case.extra["options_off"].as_str().map(|s| s.to_string());
+        let a = match crate::props::semantic::transform_for_eval(case) {
+            Ok(t) => t,
+            Err(v) => return v,
+        };
+        let b = match crate::props::semantic::transform_for_eval(&off_case) {
+            Ok(t) => t,
+            Err(v) => return v,
+        };
+        if a.diags != b.diags {
+            return Verdict::Violation {
+                kind: "diagnostics-differ".into(),
+                detail: json!({"on": a.diags, "off": b.diags}),
+            };
+        }
+        if a.code == b.code {
+            return Verdict::Discard("optimize-had-no-effect".into());
+        }
+        let results = match crate::props::semantic::node_eval(
+            ctx,
+            vec![("main", a.code.as_str()), ("ref0", b.code.as_str())],
+            &case.extra["env"],
+            &case.extra["protocol"],
+            None,
+        ) {
+            Ok(r) => r,
+            Err(v) => return v,
+        };
+        match crate::props::semantic::compare_to_refs(&results, 1, &["error", "exports", "fired"]) {
+            Ok(()) => Verdict::Pass,
+            Err(info) => Verdict::Violation {
+                kind: "optimize-changes-rendering".into(),
+                detail: json!({"info": info, "optimize_true": a.code, "optimize_false": b.code,
+                    "main": results["main"], "off": results["ref0"]}),
+            },
+        }
+    }
+    fn required_labels(&self) -> Vec<&'static str> {
+        vec!["spread", "v-slots", "vmodel-component", "directive-kebab", "host=bound-component"]
+    }
+}
